@@ -1,4 +1,5 @@
 """C20 Build configurations"""
+import elock
 import eptr
 import ecanon
 import elin
@@ -66,4 +67,8 @@ def run(ctx):
                 "bits: retagging changes only the tag, untagging clears exactly the tag bits, is_inner reads the bit above them.")
     npt = eptr.run(ctx, F)
     ctx.floor("E-PTR.tagbits", "interpreted mask / accessor situations", npt, 11)
+    ctx.explain("E-REC.depth: every splitting method of the ParallelRecursors decrements remaining_depth, the switch to the "
+                "sequential recursor happens exactly at 0, and the SequentialRecursor never asks for a switch.")
+    nrd = elock.run_recursor_depth(ctx, F)
+    ctx.floor("E-REC.depth", "recursor obligations", nrd, 6)
     ctx.not_decided = "observational equivalence of results and node counts across configurations"
